@@ -84,7 +84,10 @@ impl<C: Col> DrawTarget for Drain<C> {
         // with next() only, so that an endless stream can be cut off.
         let w = area.size.width as usize;
         let small = (area.size.width as u64) * (area.size.height as u64) <= 1 << 16;
-        let pre = if small { [0, (w + 1) / 2, w, 2 * w, usize::MAX][self.calls.len() % 5] } else { usize::MAX };
+        // (rotating over all streams of the process: most targets live for a single call)
+        static STREAMS: std::sync::atomic::AtomicUsize = std::sync::atomic::AtomicUsize::new(0);
+        let k = STREAMS.fetch_add(1, std::sync::atomic::Ordering::Relaxed);
+        let pre = if small { [0, (w + 1) / 2, w, 2 * w, usize::MAX, w, 1][k % 7] } else { usize::MAX };
         while n < pre {
             match it.next() {
                 Some(c) => {
